@@ -1,0 +1,42 @@
+//go:build verif
+
+package metadata
+
+// Contracts checked by /verif (contract-based deductive verification).
+// This file is comment-only; it is compiled only with -tags=verif.
+
+// ---- C09: metadata key / value validation -------------------------------------
+
+//@ spec func keyByteOK(r byte) bool {
+//@   return (r >= 'a' && r <= 'z') || (r >= '0' && r <= '9') || r == '.' || r == '-' || r == '_'
+//@ }
+
+//@ func hasNotPrintable
+//@   prop C09
+//@   pure
+//@   nopanic
+//@   loop 1 invariant 0 <= i && i <= len(msg)
+//@   loop 1 invariant forall(func(j int) bool { return implies(0 <= j && j < i, msg[j] >= 0x20 && msg[j] <= 0x7E) })
+//@   loop 1 decreases Z(len(msg)) - Z(i)
+//@   ensures result == exists(func(j int) bool { return 0 <= j && j < len(msg) && (msg[j] < 0x20 || msg[j] > 0x7E) })
+
+// ValidateKey accepts exactly: non-empty keys that are pseudo-headers (leading
+// ':') or consist only of [0-9a-z._-].
+//@ func ValidateKey
+//@   prop C09
+//@   pure
+//@   nopanic
+//@   loop 1 invariant 0 <= i && i <= len(key)
+//@   loop 1 invariant forall(func(j int) bool { return implies(0 <= j && j < i, keyByteOK(key[j])) })
+//@   loop 1 decreases Z(len(key)) - Z(i)
+//@   ensures iff(result == nil, len(key) > 0 && (key[0] == ':' || forall(func(j int) bool { return implies(0 <= j && j < len(key), keyByteOK(key[j])) })))
+
+//@ import strings "strings"
+
+// ValidatePair: the key must be valid; values of "-bin" keys are not checked;
+// every other value must be printable ASCII.
+//@ func ValidatePair
+//@   prop C09
+//@   nopanic
+//@   loop 1 invariant forall(func(j int) bool { return implies(0 <= j && j <= rangeindex, !hasNotPrintable(vals[j])) })
+//@   ensures iff(result == nil, ValidateKey(key) == nil && (strings.HasSuffix(key, "-bin") || forall(func(j int) bool { return implies(0 <= j && j < len(vals), !hasNotPrintable(vals[j])) })))
